@@ -99,7 +99,11 @@ func (c *Ctx) Cos(a D) D  { return c.un(a, math.Cos(a.V), -math.Sin(a.V)) }
 func (c *Ctx) Tan(a D) D  { co := math.Cos(a.V); return c.un(a, math.Tan(a.V), 1/(co*co)) }
 func (c *Ctx) Sinh(a D) D { return c.un(a, math.Sinh(a.V), math.Cosh(a.V)) }
 func (c *Ctx) Cosh(a D) D { return c.un(a, math.Cosh(a.V), math.Sinh(a.V)) }
-func (c *Ctx) Tanh(a D) D { th := math.Tanh(a.V); return c.un(a, th, 1-th*th) }
+func (c *Ctx) Tanh(a D) D {
+	// 1/cosh^2 rather than 1-tanh^2: the latter cancels catastrophically near saturation
+	ch := math.Cosh(a.V)
+	return c.un(a, math.Tanh(a.V), 1/(ch*ch))
+}
 func (c *Ctx) Sqrt(a D) D { s := math.Sqrt(a.V); return c.un(a, s, 0.5/s) }
 
 func (c *Ctx) gap(g float64) {
